@@ -225,9 +225,10 @@ CompareStatus(a, b, ids, shallow) ==
     /\ act' = [op |-> "CompareStatus", a |-> a, b |-> b, ids |-> ids, shallow |-> shallow]
     /\ UNCHANGED <<ridx, hvars>> /\ NoXfer
 
-\* gc(odb, used, shallow, dry); `foreign` = ids passed under another hash name, `ro` = read-only handle
+\* gc(odb, used, shallow, dry); `foreign` = ids passed under another hash name (the same values may also be passed
+\* under the store's own name), `ord` = where they stand in the used collection, `ro` = read-only handle
 GcKeep(used, shallow) == used \cup (IF shallow THEN {} ELSE ListsOf(used))
-Gc(s, used, foreign, shallow, dry, ro) ==
+Gc(s, used, foreign, ord, shallow, dry, ro) ==
     /\ Idle /\ "gc" \in Ops
     /\ LET loadable == shallow \/ \A d \in used \cap Dirs : Present(store, s, d)
            removed  == PresentSet(store, s) \ GcKeep(used, shallow)
@@ -240,7 +241,7 @@ Gc(s, used, foreign, shallow, dry, ro) ==
                            ELSE [store EXCEPT ![s] = [o \in Oids |-> IF o \in removed THEN Absent ELSE @[o]]]
                /\ opened' = IF ~dry /\ shallow /\ used \cap Dirs # {} THEN opened \cup {s} ELSE opened
                /\ gced' = IF ~dry /\ removed # {} THEN gced \cup {s} ELSE gced
-    /\ act' = [op |-> "Gc", s |-> s, used |-> used, foreign |-> foreign, shallow |-> shallow, dry |-> dry, ro |-> ro]
+    /\ act' = [op |-> "Gc", s |-> s, used |-> used, foreign |-> foreign, ord |-> ord, shallow |-> shallow, dry |-> dry, ro |-> ro]
     /\ UNCHANGED <<ridx, delivered, unfin, dev, nx>> /\ NoXfer
 
 (************************** transfer, step by step *************************)
@@ -428,7 +429,7 @@ Next ==
     \/ \E s \in Stores, o \in Oids : Check(s, o)
     \/ \E s \in Stores, ids \in Requests, m \in Modes : Status(s, ids, m[1], m[2])
     \/ \E p \in XferPairs, ids \in Requests, m \in Modes : CompareStatus(p[1], p[2], ids, m[1])
-    \/ \E s \in Stores, used \in Requests, sh \in BOOLEAN, dry \in BOOLEAN : Gc(s, used, {}, sh, dry, FALSE)
+    \/ \E s \in Stores, used \in Requests, sh \in BOOLEAN, dry \in BOOLEAN : Gc(s, used, {}, "used-first", sh, dry, FALSE)
     \/ BeginAny
     \/ \E d \in Dirs : Pick(d)
     \/ \E x \in Oids : PutBound(x) \/ PutDir(x) \/ PutLoose(x)
